@@ -107,7 +107,17 @@ def make_trr(rng):
     p = 8 if double else 4
     r = "d" if double else "f"
     blob, ends, frames = b"", [], []
+    # velocities / forces only in every k-th frame (nstvout, nstfout a
+    # multiple of nstxout): frames of one file then differ in size
+    mixed = rng.random() < 0.35
+    vstep = rng.choice([1, 2, 3]) if mixed else 1
+    fstep = rng.choice([1, 2, 3]) if mixed else 1
+    v_all, f_all = has_v, has_f
+    if mixed:
+        v_all = f_all = True
     for t in range(nframes):
+        has_v = v_all and t % vstep == 0
+        has_f = f_all and t % fstep == (fstep - 1 if mixed else 0)
         box = [rng.uniform(1, 5) if i % 4 == 0 else 0.0 for i in range(9)]
         x = [rng.uniform(-5, 5) for _ in range(3 * n)]
         v = [rng.uniform(-5, 5) for _ in range(3 * n)]
@@ -138,8 +148,9 @@ def make_trr(rng):
         frames.append({"x": rt(x), "v": rt(v) if has_v else None,
                        "box": rt(box) if has_box else None})
     return blob, ends, frames, {"endian": endian, "double": double, "n": n,
-                                "has_v": has_v, "has_f": has_f,
-                                "has_box": has_box}
+                                "has_v": v_all, "has_f": f_all,
+                                "has_box": has_box, "mixed_layout": mixed,
+                                "vstep": vstep, "fstep": fstep}
 
 
 # --------------------------------------------------------------------------
